@@ -293,6 +293,8 @@ func (c *RetryClient) SetClient(ctx context.Context, cli *BaseClient) {
 	c.chTask = make(chan struct{}, 1)
 	go func() {
 		connected := false
+		// chConnSwitch of the client on which the connection was established.
+		var chConnSwitchConnected chan struct{}
 		ctx := context.Background()
 
 	L_TASK:
@@ -308,6 +310,7 @@ func (c *RetryClient) SetClient(ctx context.Context, cli *BaseClient) {
 					case _, ok := <-chConnectErr:
 						if !ok {
 							connected = true
+							chConnSwitchConnected = chConnSwitch
 							continue L_TASK
 						}
 					case <-chConnSwitch:
@@ -316,7 +319,8 @@ func (c *RetryClient) SetClient(ctx context.Context, cli *BaseClient) {
 			}
 
 			c.mu.Lock()
-			chConnSwitch := c.chConnSwitch
+			// Not c.chConnSwitch: SetClient may have replaced it while a task was running.
+			chConnSwitch := chConnSwitchConnected
 			select {
 			case <-chConnSwitch:
 				c.mu.Unlock()
